@@ -15,4 +15,5 @@ def jobs(tier):
     J = []
     J.append(Job('read_v2', SRC, 'harness_read', defines=['NIOV=2', 'FAULTS=0'], unwind=14, unwindset=['verif_memcpy_n.0:50'], shims=SH, ir2c=MAP, timeout=300, mem_gb=8,
                  desc='one read', bounds=''))
+    J.append(Job('hole_rangemodule', 'C17/h_hole.cpp', 'harness_rangemodule', defines=['NEXT=2'], unwind=6, shims=['libc.c', 'rbtree.c'], timeout=300, mem_gb=6, desc='RangeModule hole query', bounds=''))
     return J
